@@ -51,7 +51,9 @@ type SortableMutexes []SortableMutex
 func (s SortableMutexes) Lock() {
 	slices.SortFunc(s, func(a, b SortableMutex) int { return cmp.Compare(a.Seq(), b.Seq()) })
 	for _, mu := range s {
+		verifLock("locking", mu.Seq())
 		mu.Lock()
+		verifLock("locked", mu.Seq())
 	}
 }
 
@@ -59,6 +61,7 @@ func (s SortableMutexes) Lock() {
 func (s SortableMutexes) Unlock() {
 	for _, mu := range s {
 		mu.Unlock()
+		verifLock("unlocked", mu.Seq())
 	}
 }
 
